@@ -1,6 +1,7 @@
 package checks
 
 import (
+	"path/filepath"
 	"fmt"
 	"regexp"
 	"sort"
@@ -90,6 +91,7 @@ type c07scn struct {
 	cfg     core.M
 	files   map[string]string
 	expect  []string // sorted "srcpkg|iface|struct"
+	open    map[string]bool // mocks whose presence the statement leaves open
 	wantErr bool
 }
 
@@ -296,6 +298,7 @@ func C07(c *core.Ctx) error {
 		maxNodes = 4
 	}
 	scns = append(scns, c07trees(probe, maxNodes, core.Quick(c.Tier))...)
+	scns = append(scns, c07forests(probe)...)
 
 	// ---------------- run
 	outcomes := map[string]struct{}{}
@@ -333,6 +336,9 @@ func C07(c *core.Ctx) error {
 			for _, mk := range f.Mocks {
 				if strings.HasPrefix(mk.Iface, "Alias") {
 					continue // mocking an alias declaration under its own name: don't care
+				}
+				if s.open[fmt.Sprintf("%s|%s|%s", f.SrcPkg, mk.Iface, mk.Struct)] {
+					continue
 				}
 				got = append(got, fmt.Sprintf("%s|%s|%s", f.SrcPkg, mk.Iface, mk.Struct))
 			}
@@ -527,6 +533,84 @@ func c07trees(probe string, maxNodes int, quick bool) []c07scn {
 				}
 			}
 		}
+	}
+	return out
+}
+
+// c07forests: several recursive roots (two siblings and one configured inside the first), each with its own
+// exclusion list; a sub-package is left out exactly when a pattern of ITS nearest configured recursive ancestor
+// matches it -- the lists of the other roots, processed before or after, are irrelevant.
+func c07forests(probe string) []c07scn {
+	var out []c07scn
+	P := func(s string) string { return core.ModPath + "/" + s }
+	roots := []string{"alpha", "alpha/inner", "beta"}
+	subs := []string{"gen", "tmp", "ok"}
+	files := map[string]string{}
+	for _, r := range roots {
+		files[r+"/x.go"] = fmt.Sprintf("package %s\n\ntype I interface{ M() }\n", filepath.Base(r))
+		for _, sp := range subs {
+			files[r+"/"+sp+"/x.go"] = fmt.Sprintf("package %s\n\ntype I interface{ M() }\n", sp)
+		}
+	}
+	lists := [][]string{nil, {"gen$"}, {"tmp$"}, {"gen$", "tmp$"}}
+	for _, rootList := range [][]string{nil, {"ok$"}} {
+		for code := 0; code < 64; code++ {
+			pick := []int{code % 4, code / 4 % 4, code / 16}
+			root := c07baseRoot(probe)
+			if rootList != nil {
+				root["exclude-subpkg-regex"] = toAny(rootList)
+			}
+			pkgs := core.M{}
+			var exp []string
+			open := map[string]bool{}
+			effOf := map[string][]string{}
+			for ri, r := range roots {
+				marker := fmt.Sprintf("R%d", ri)
+				rc := core.M{"all": true, "recursive": true, "structname": marker + "_{{.InterfaceName}}"}
+				eff := rootList
+				if l := lists[pick[ri]]; l != nil {
+					rc["exclude-subpkg-regex"] = toAny(l)
+					eff = l
+				}
+				pkgs[P(r)] = core.M{"config": rc}
+				effOf[r] = eff
+				exp = append(exp, fmt.Sprintf("%s|I|%s_I", P(r), marker))
+				for _, sp := range subs {
+					excluded := false
+					for _, pat := range eff {
+						if regexp.MustCompile(pat).MatchString(P(r + "/" + sp)) {
+							excluded = true
+						}
+					}
+					if !excluded {
+						exp = append(exp, fmt.Sprintf("%s|I|%s_I", P(r+"/"+sp), marker))
+					} else if r == "alpha/inner" {
+						// excluded by its nearest recursive ancestor but also below alpha: whether alpha's own
+						// recursion (whose list may not match) picks it up is left open by the statement
+						viaAlpha := true
+						for _, pat := range effOf["alpha"] {
+							if regexp.MustCompile(pat).MatchString(P(r + "/" + sp)) {
+								viaAlpha = false
+							}
+						}
+						if viaAlpha {
+							open[fmt.Sprintf("%s|I|R0_I", P(r+"/"+sp))] = true
+						}
+					}
+				}
+			}
+			root["packages"] = pkgs
+			sort.Strings(exp)
+			out = append(out, c07scn{id: fmt.Sprintf("forest exclude lists alpha=%v alpha/inner=%v beta=%v top-level=%v", lists[pick[0]], lists[pick[1]], lists[pick[2]], rootList), cfg: root, files: files, expect: exp, open: open})
+		}
+	}
+	return out
+}
+
+func toAny(l []string) []any {
+	var out []any
+	for _, x := range l {
+		out = append(out, x)
 	}
 	return out
 }
